@@ -165,9 +165,9 @@ static void space_paths(void)
 	int carrier = atoi(vf_extra("carrier", "-1"));
 	int len, i, c, os_i, na;
 	static const uint8_t oss[2] = { 'M', 'U' };
-	for (c = 0; c < 9; ++c) {
+	for (c = 0; c < 12; ++c) {
 		if (carrier >= 0 && c != carrier) continue;
-		na = c >= 7 ? 7 : 6;                                /* link carriers add '|' */
+		na = c >= 7 && c <= 8 ? 7 : 6;                                /* link carriers add '|' */
 		for (os_i = 0; os_i < 2; ++os_i)
 		for (len = 0; len <= maxlen; ++len) {
 			int idx[12];
@@ -194,6 +194,10 @@ static void space_paths(void)
 					case 5: hdr_init(&f, 1, "-lh0-"); f.name = s1; f.name_len = split; if (len - split) add_ext(&f, 2, s2, len - split); break;
 					case 6: hdr_init(&f, 2, "-lh0-"); if (split) add_ext(&f, 2, s1, split); if (len - split) add_ext(&f, 1, s2, len - split); break;
 					case 7: hdr_init(&f, 2, "-lhd-"); add_ext(&f, 0x50, pb, 2); if (len) add_ext(&f, 1, s, len); break;
+					/* the name or the path supplied twice: a longer harmless one first, the string under test second */
+					case 9: hdr_init(&f, 1, "-lh0-"); f.name = (const uint8_t *) "aaaaaaaaaa"; f.name_len = 10; if (len) add_ext(&f, 1, s, len); break;
+					case 10: hdr_init(&f, 2, "-lh0-"); add_ext(&f, 1, "aaaaaaaaaa", 10); if (len) add_ext(&f, 1, s, len); break;
+					case 11: hdr_init(&f, 2, "-lh0-"); add_ext(&f, 2, "aaaaaaaaaa\xff", 11); if (len) add_ext(&f, 2, s, len); add_ext(&f, 1, "n", 1); break;
 					default: hdr_init(&f, 2, "-lhd-"); add_ext(&f, 0x50, pb, 2); if (split) add_ext(&f, 2, s1, split); if (len - split) add_ext(&f, 1, s2, len - split); break;
 					}
 					f.os = oss[os_i];
